@@ -293,6 +293,8 @@ class Batch:
             ctx.extra["driver_error"] = str(err)[:1500]
             ctx.mismatch({"driver": "Results"}, None, None, f"model driver unavailable: {str(err)[:300]}")
             return
+        ctx.extra["compared_exactly"] = ctx.extra.get("compared_exactly", 0) + sum(self.exact)
+        ctx.extra["compared_to_1e-9"] = ctx.extra.get("compared_to_1e-9", 0) + (len(self.exact) - sum(self.exact))
         for c, i, m, ex in zip(self.mcases, self.impls, outs, self.exact):
             ctx.traces_validated += 1
             if not same(i, m, ex):
@@ -339,7 +341,7 @@ def run(ctx: Ctx) -> None:
     ctx.rule = RULE
     batch = Batch(ctx)
     batch.add(load_corpus())
-    n = ctx.budget(400, 8000)
+    n = ctx.budget(600, 20000)
     cases: list[dict] = []
     for k in range(n):
         rng = ctx.subrng("case", k)
